@@ -44,7 +44,57 @@ class StmtMixin:
         m = getattr(self, "ex_" + type(s).__name__, None)
         if m is None:
             raise Unsupported(f"statement {type(s).__name__} at L{s.lineno}")
-        return m(s, p)
+        fn = p.frame.fn
+        if fn is not None and fn.mod is not None:
+            p.stmts.add((fn.fqn, s.lineno))
+        ghost = getattr(fn, "ghost", None) if fn is not None else None
+        if not ghost:
+            return m(s, p)
+        key = self._stmt_key(s)
+        before = [g for g in ghost if g[0] == key and g[1] == "before"]
+        after = [g for g in ghost if g[0] == key and g[1] == "after"]
+        if not before and not after:
+            return m(s, p)
+        for g in before:
+            self.run_ghost(p, g[2])
+            fn._ghost_hits.add((g[0], g[1]))
+        res = m(s, p)
+        for q, oc in res:
+            if oc is NEXT:
+                for g in after:
+                    self.run_ghost(q, g[2])
+                    fn._ghost_hits.add((g[0], g[1]))
+        return res
+
+    def _stmt_key(self, s):
+        """Ghost code is anchored by the (normalised) source text of a simple statement, or by the header of a
+        compound one - not by line numbers, so unrelated edits do not detach it."""
+        if isinstance(s, (ast.If, ast.While)):
+            return type(s).__name__.lower() + " " + ast.unparse(s.test)
+        if isinstance(s, ast.For):
+            return "for " + ast.unparse(s.target) + " in " + ast.unparse(s.iter)
+        if isinstance(s, (ast.With, ast.Try, ast.FunctionDef)):
+            return type(s).__name__.lower()
+        return ast.unparse(s)
+
+    def run_ghost(self, p: Path, code: str):
+        """Ghost statements: assignments to ghost locals (names starting with g_), evaluated in spec mode (no
+        forking, no effects on the program heap or program variables)."""
+        tree = self._ghost_cache.get(code)
+        if tree is None:
+            tree = self._ghost_cache[code] = ast.parse(code).body
+        for st in tree:
+            if not (isinstance(st, ast.Assign) and len(st.targets) == 1 and isinstance(st.targets[0], ast.Name)
+                    and st.targets[0].id.startswith("g_")):
+                raise Unsupported("ghost code may only assign ghost locals g_*")
+            env = {}
+            for k in list(p.frame.locals):
+                if k.startswith("$k"):
+                    env["g_k"] = p.frame.locals[k]
+            v = self.spec_val(st.value, p, env)
+            p.frame.locals[st.targets[0].id] = v
+
+    _ghost_cache: dict = {}
 
     def lift(self, results, f):
         """results from ev: (p, V|Exc) -> outcomes; f(p, v) -> list[(p, outcome)]."""
@@ -181,7 +231,7 @@ class StmtMixin:
     def assign(self, target, v: V, p: Path):
         if isinstance(target, ast.Name):
             ty = p.frame.fn.local_types.get(target.id) if p.frame.fn is not None else None
-            p.frame_for_store(target.id).locals[target.id] = v if ty is None else self._coerce_local(v, ty)
+            p.frame_for_store(target.id).locals[target.id] = v if ty is None else self._coerce_local(p, v, ty)
             return [(p, NEXT)]
         if isinstance(target, (ast.Tuple, ast.List)):
             items = self.unpack(v, len(target.elts), p)
@@ -203,9 +253,9 @@ class StmtMixin:
                              lambda q, vs: self.set_item(q, vs[0], vs[1], v, target))
         raise Unsupported(f"assignment target {type(target).__name__}")
 
-    def _coerce_local(self, v, ty):
+    def _coerce_local(self, p, v, ty):
         try:
-            return coerce(v, ty)
+            return self.adapt(p, v, ty)
         except TypeError:
             return v
 
@@ -532,6 +582,13 @@ class StmtMixin:
             self.oblige(p, self.spec_bool(inv, p, self.loop_env(p, ordinal, kind, entry_heap)), "inv-init", f"{L}#{idx}")
         # 2. havoc
         targets = self.assigned_names(s.body) | (self.assigned_names([s]) - self.assigned_names(s.orelse))
+        # ghost locals updated by ghost code anchored inside this loop are loop-carried too
+        gh = getattr(p.frame.fn, "ghost", None) or []
+        if gh:
+            inside = {self._stmt_key(n) for n in ast.walk(s) if isinstance(n, ast.stmt)}
+            for key, _when, code in gh:
+                if key in inside:
+                    targets |= {t.targets[0].id for t in ast.parse(code).body}
         for name in targets:
             cur = p.frame.lookup(name)
             if cur is not None and cur.ty is not None and not isinstance(cur, (VFunc, VClass)):
@@ -578,9 +635,12 @@ class StmtMixin:
                     if kind == "for":
                         q2.frame.locals[kname] = VInt(kv.z + 1)
                     for idx, inv in enumerate(spec.invariant):
-                        self.oblige(q2, self.spec_bool(inv, q2, self.loop_env(q2, ordinal, kind, entry_heap)), "inv-step", f"{L}#{idx}")
+                        goal = self.spec_bool(inv, q2, self.loop_env(q2, ordinal, kind, entry_heap))
+                        self.oblige(q2, goal, "inv-step", f"{L}#{idx}")
+                        q2.assume(goal)
                     self.check_loop_frame(q2, spec, havoc_heap, L)
                     self.on_loop_iteration_end(q2, s, ordinal, entry_heap)
+                    self.terminal(q2, f"loop-end {L}")
                     # path ends here (cut)
                 elif oc2[0] == "break":
                     self.check_loop_frame(q2, spec, havoc_heap, L)
